@@ -3,23 +3,44 @@
 // statement that lacks a mandatory substatement, or the type, uses, range, length or enum
 // statement whose name or value is bad.
 //
-// Single-semantic-fault injector over valid generated modules: the faulty statement carries a
-// unique marker, its true position is read off the generic parse (Statement.Location), and the
-// errors of Modules.Parse / Process must name exactly that position; in addition every positioned
-// error of every run must be the start of some statement of the file it names. (The positions of
-// Process errors are also part of the model correspondence of corr-c04: E records.)
+// Single-semantic-fault injector over valid generated modules.  One fault kind per positioned
+// error class of harness/lib/errclass.go (several for the classes the property names: unknown
+// type / prefix in leaf, leaf-list, typedef, union member and deviate type, with a local, an
+// own-prefixed, a foreign-prefixed and an undeclared-prefixed name).  The faulty statement is
+// addressed by a unique marker, its true position is read off the generic parse
+// (Statement.Location), and
+//
+//   - some error of the expected class must stand exactly at that position,
+//   - no error may stand anywhere else (an error's position is the leading file:line:col of its
+//     message or of a message wrapped in "[…]"; positions merely mentioned on continuation lines
+//     must be statement starts),
+//   - every position of every run must be the start of some statement of the file it names.
+//
+// The expected statement per class is the one the Lean model assigns (Goyang/Props/C16Sem.lean:
+// Spec.Positions.Names for the constrained classes; for duplicate-key the parent, duplicate-node
+// the grouping, augment-not-found the augment, identity-base-* and the deviation classes the
+// module statement of the (deviating) module, cycles the re-entered grouping / the identity).
+//
+// With -driver <drv_res> the error records (file:line:col:class) of every faulted set that the
+// builder accepts are also compared with the resolver model (whole pipeline, plugFull): the tie
+// between the theorems and the Go code.  `type-cycle` is the only class compared without position
+// (lib.CanonErrs / Pipeline.normTypeErr); the position inside a wrapped `deviate-bad-type` message
+// is checked by the marker oracle only.
 package main
 
 import (
 	"encoding/json"
 	"fmt"
 	"os"
+	"path/filepath"
 	"regexp"
+	"sort"
 	"strings"
 
 	"github.com/openconfig/goyang/pkg/yang"
 	"verif/harness/gen"
 	"verif/harness/lib"
+	"verif/harness/rescorr"
 )
 
 type tcase struct {
@@ -28,43 +49,83 @@ type tcase struct {
 	Fault  string   `json:"fault"`
 	Marker string   `json:"marker"`
 	// MarkerIsKeyword: the marker is the keyword of the faulty statement (else its argument).
+	// (Old form, kept for recorded replays; Key is used when set.)
 	MarkerIsKeyword bool `json:"marker_is_keyword"`
+	// Key addresses the statement(s) the error must stand at:
+	//   kw:<keyword> | arg:<argument> | sub:<parent argument>/<keyword> | parentof:<child argument>
+	Key string `json:"key,omitempty"`
+	// File restricts Key to one file ("" = any).
+	File string `json:"file,omitempty"`
+	// Class is the expected class (lib.ErrClass) of the error at that statement ("" = any).
+	Class string `json:"class,omitempty"`
+	// Also: keys of further statements an error of this fault may stand at.
+	Also []string `json:"also,omitempty"`
+}
+
+func (c tcase) key() string {
+	if c.Key != "" {
+		return c.Key
+	}
+	if c.Marker == "" {
+		return ""
+	}
+	if c.MarkerIsKeyword {
+		return "kw:" + c.Marker
+	}
+	return "arg:" + c.Marker
 }
 
 var posRe = regexp.MustCompile(`^(\S+?):(\d+):(\d+): `)
 
-// starts collects the positions of all statements of a text.
-func starts(name, text string) (map[string]bool, map[string]string) {
+// starts collects the positions of all statements of a text, and the positions by marker key.
+func starts(name, text string) (map[string]bool, map[string][]string) {
 	pos := map[string]bool{}
-	byMarker := map[string]string{}
+	byKey := map[string][]string{}
 	ss, err := yang.Parse(text, name)
 	if err != nil {
-		return pos, byMarker
+		return pos, byKey
 	}
 	var walk func(s *yang.Statement)
 	walk = func(s *yang.Statement) {
 		loc := s.Location()
 		pos[loc] = true
-		byMarker["kw:"+s.Keyword] = loc
+		byKey["kw:"+s.Keyword] = append(byKey["kw:"+s.Keyword], loc)
 		if s.HasArgument {
-			byMarker["arg:"+s.Argument] = loc
+			byKey["arg:"+s.Argument] = append(byKey["arg:"+s.Argument], loc)
 		}
 		for _, c := range s.SubStatements() {
+			if s.HasArgument {
+				k := "sub:" + s.Argument + "/" + c.Keyword
+				byKey[k] = append(byKey[k], c.Location())
+			}
+			if c.HasArgument {
+				k := "parentof:" + c.Argument
+				byKey[k] = append(byKey[k], loc)
+			}
 			walk(c)
 		}
 	}
 	for _, s := range ss {
 		walk(s)
 	}
-	return pos, byMarker
+	return pos, byKey
+}
+
+type epos struct {
+	Loc   string
+	Class string
 }
 
 type verdict struct {
-	Errors   []string
-	Expected string
-	Named    bool   // some error names the expected position
-	Stray    string // a positioned error that is not a statement start
-	NoError  bool
+	Errors    []string
+	Expected  []string // the positions the marker addresses
+	At        []epos   // positions errors stand at
+	Named     bool     // some error of the expected class stands at an expected position
+	Elsewhere string   // an error that stands at another statement
+	Stray     string   // a position that is not a statement start
+	NoError   bool
+	ParseFail bool
+	errs      []error
 }
 
 func run(c tcase) (v verdict, crashed string) {
@@ -74,17 +135,28 @@ func run(c tcase) (v verdict, crashed string) {
 		}
 	}()
 	all := map[string]bool{}
+	exp := map[string]bool{}
+	also := map[string]bool{}
 	for i := range c.Names {
-		p, bm := starts(c.Names[i], c.Texts[i])
+		p, bk := starts(c.Names[i], c.Texts[i])
 		for k := range p {
 			all[k] = true
 		}
-		key := "arg:" + c.Marker
-		if c.MarkerIsKeyword {
-			key = "kw:" + c.Marker
+		if c.File != "" && c.File != c.Names[i] {
+			continue
 		}
-		if loc, ok := bm[key]; ok && c.Marker != "" {
-			v.Expected = loc
+		if k := c.key(); k != "" {
+			for _, loc := range bk[k] {
+				if !exp[loc] {
+					exp[loc] = true
+					v.Expected = append(v.Expected, loc)
+				}
+			}
+		}
+		for _, k := range c.Also {
+			for _, loc := range bk[k] {
+				also[loc] = true
+			}
 		}
 	}
 	ms := yang.NewModules()
@@ -96,21 +168,41 @@ func run(c tcase) (v verdict, crashed string) {
 	}
 	if len(errs) == 0 {
 		errs = ms.Process()
+	} else {
+		v.ParseFail = true
 	}
+	v.errs = errs
 	v.NoError = len(errs) == 0
 	for _, e := range errs {
 		msg := e.Error()
 		v.Errors = append(v.Errors, msg)
-		// an error may wrap others ("deviation has unresolvable type, [pos: …]"): look at every position
-		for _, line := range strings.Split(msg, "\n") {
+		for li, line := range strings.Split(msg, "\n") {
+			// an error may wrap others ("deviation has unresolvable type, [pos: …]"): every such
+			// position is the position of an error; a position on a continuation line is a mention
 			for _, seg := range strings.Split(line, "[") {
-				if m := posRe.FindStringSubmatch(strings.TrimSpace(seg)); m != nil {
-					loc := m[1] + ":" + m[2] + ":" + m[3]
-					if loc == v.Expected {
+				seg = strings.TrimSpace(seg)
+				m := posRe.FindStringSubmatch(seg)
+				if m == nil {
+					continue
+				}
+				loc := m[1] + ":" + m[2] + ":" + m[3]
+				if !all[loc] && v.Stray == "" {
+					v.Stray = loc + " in: " + msg
+				}
+				if li > 0 {
+					continue
+				}
+				_, _, _, cls := lib.ErrClass(seg)
+				v.At = append(v.At, epos{loc, cls})
+				switch {
+				case exp[loc]:
+					if c.Class == "" || c.Class == cls {
 						v.Named = true
 					}
-					if !all[loc] && v.Stray == "" {
-						v.Stray = loc + " in: " + msg
+				case also[loc]:
+				default:
+					if v.Elsewhere == "" {
+						v.Elsewhere = loc + " (" + cls + ") in: " + msg
 					}
 				}
 			}
@@ -119,132 +211,605 @@ func run(c tcase) (v verdict, crashed string) {
 	return v, ""
 }
 
-// inject plants one fault into a copy of the set; returns nil when the set offers no site.
-func inject(r interface{ Intn(int) int }, set *gen.Set, kind int, seq int) *tcase {
-	// collect candidate nodes
-	type site struct {
-		m *gen.Module
-		n *gen.Node
-	}
-	var leaves, containers, usess, types []site
-	var walk func(m *gen.Module, n *gen.Node)
-	walk = func(m *gen.Module, n *gen.Node) {
+// ---------------------------------------------------------------------------------------------
+// fault injection
+
+type site struct {
+	m *gen.Module
+	n *gen.Node
+}
+
+type ictx struct {
+	r    interface{ Intn(int) int }
+	set  *gen.Set
+	mk   string
+	c    *tcase
+	post func(names, texts []string) ([]string, []string) // text-level edits after rendering
+
+	holders, leaves, containers, types []site
+}
+
+func (x *ictx) collect() {
+	x.holders, x.leaves, x.containers, x.types = nil, nil, nil, nil
+	var walk func(m *gen.Module, n *gen.Node, inDev bool)
+	walk = func(m *gen.Module, n *gen.Node, inDev bool) {
 		for _, c := range n.Kids {
-			switch c.Kw {
-			case "leaf":
-				leaves = append(leaves, site{m, c})
-			case "container", "list":
-				containers = append(containers, site{m, c})
-			case "uses":
-				usess = append(usess, site{m, c})
-			case "type":
-				types = append(types, site{m, c})
+			dev := inDev || c.Kw == "deviation"
+			if !dev {
+				switch c.Kw {
+				case "leaf":
+					x.leaves = append(x.leaves, site{m, c})
+				case "container", "list":
+					x.containers = append(x.containers, site{m, c})
+					x.holders = append(x.holders, site{m, c})
+				case "grouping", "case", "input", "output", "notification", "augment":
+					x.holders = append(x.holders, site{m, c})
+				case "type":
+					x.types = append(x.types, site{m, c})
+				}
 			}
-			walk(m, c)
+			walk(m, c, dev)
 		}
 	}
-	for _, m := range set.Mods {
-		walk(m, m.Body)
+	for _, m := range x.set.Mods {
+		x.holders = append(x.holders, site{m, m.Body})
+		walk(m, m.Body, false)
 	}
-	pick := func(l []site) *site {
-		if len(l) == 0 {
-			return nil
-		}
-		return &l[r.Intn(len(l))]
+}
+
+func pick(r interface{ Intn(int) int }, l []site) *site {
+	if len(l) == 0 {
+		return nil
 	}
-	c := &tcase{}
-	mk := fmt.Sprintf("zz%dq", seq)
-	switch kind {
-	case 0: // unknown substatement (keyword unknown in its context)
-		s := pick(containers)
-		if s == nil {
-			return nil
+	return &l[r.Intn(len(l))]
+}
+
+func nd(kw, arg string, kids ...*gen.Node) *gen.Node { return &gen.Node{Kw: kw, Arg: arg, Kids: kids} }
+
+// holder picks a statement that may hold data definitions (module body, container, list,
+// grouping, case, rpc input / output, notification, augment).
+// A holder at which one more harmless leaf is itself a fault (a grouping used twice by one
+// statement: every addition collides with itself) is passed over.
+func (x *ictx) holder() *site {
+	for try := 0; try < 8; try++ {
+		s := pick(x.r, x.holders)
+		old := s.n.Kids
+		s.n.Kids = append(append([]*gen.Node{}, old...), nd("leaf", "pr"+x.mk, nd("type", "string")))
+		names, texts := x.set.Files()
+		v, crash := run(tcase{Names: names, Texts: texts})
+		s.n.Kids = old
+		if crash == "" && v.NoError {
+			return s
 		}
-		s.n.Kids = append(s.n.Kids, &gen.Node{Kw: "bogus-" + mk, Arg: "v"})
-		c.Fault, c.Marker, c.MarkerIsKeyword = "unknown substatement", "bogus-"+mk, true
-	case 1: // a known keyword that is not allowed in this context
-		s := pick(leaves)
-		if s == nil {
-			return nil
-		}
-		s.n.Kids = append(s.n.Kids, &gen.Node{Kw: "key", Arg: mk})
-		c.Fault, c.Marker = "substatement not allowed here", mk
-	case 2: // statement lacking a mandatory substatement: leaf without type
-		s := pick(leaves)
-		if s == nil {
-			return nil
-		}
-		var kids []*gen.Node
-		for _, k := range s.n.Kids {
-			if k.Kw != "type" {
-				kids = append(kids, k)
-			}
-		}
-		s.n.Kids = kids
-		s.n.Arg = mk
-		c.Fault, c.Marker = "leaf without type", mk
-	case 3: // bad type name
-		s := pick(types)
-		if s == nil {
-			return nil
-		}
-		s.n.Arg = "ty" + mk
-		s.n.Kids = nil
-		c.Fault, c.Marker = "unknown type", "ty"+mk
-	case 4: // bad uses
-		s := pick(containers)
-		if s == nil {
-			return nil
-		}
-		s.n.Kids = append(s.n.Kids, &gen.Node{Kw: "uses", Arg: "gr" + mk})
-		c.Fault, c.Marker = "unknown grouping", "gr"+mk
-	case 5: // bad range: out of the parent's set; the range statement carries the position
-		s := pick(leaves)
-		if s == nil {
-			return nil
-		}
-		for _, k := range s.n.Kids {
-			if k.Kw == "type" {
-				k.Arg = "int8"
-				k.Kids = []*gen.Node{{Kw: "range", Arg: "1..3000"}}
-			}
-		}
-		c.Fault, c.Marker = "bad range", "1..3000"
-	case 6: // bad length
-		s := pick(leaves)
-		if s == nil {
-			return nil
-		}
-		for _, k := range s.n.Kids {
-			if k.Kw == "type" {
-				k.Arg = "string"
-				k.Kids = []*gen.Node{{Kw: "length", Arg: "7..3"}}
-			}
-		}
-		c.Fault, c.Marker = "bad length", "7..3"
-	case 7: // bad enum value
-		s := pick(leaves)
-		if s == nil {
-			return nil
-		}
-		for _, k := range s.n.Kids {
-			if k.Kw == "type" {
-				k.Arg = "enumeration"
-				k.Kids = []*gen.Node{{Kw: "enum", Arg: "ok"}, {Kw: "enum", Arg: "en" + mk, Kids: []*gen.Node{{Kw: "value", Arg: "99999999999"}}}}
-			}
-		}
-		c.Fault, c.Marker = "bad enum value", "en"+mk
-	case 8: // import without prefix
-		m := set.Mods[r.Intn(len(set.Mods))]
-		m.Body.Kids = append(m.Body.Kids, &gen.Node{Kw: "import", Arg: "im" + mk})
-		c.Fault, c.Marker = "import without prefix", "im"+mk
 	}
-	c.Names, c.Texts = set.Files()
-	return c
+	m := x.set.Mods[x.r.Intn(len(x.set.Mods))]
+	return &site{m, m.Body}
+}
+
+// top picks a module or submodule body.
+func (x *ictx) top() *site {
+	m := x.set.Mods[x.r.Intn(len(x.set.Mods))]
+	return &site{m, m.Body}
+}
+
+// mainTop picks the body of a module that is not a submodule.
+func (x *ictx) mainTop() *site {
+	var l []site
+	for _, m := range x.set.Mods {
+		if !m.Sub {
+			l = append(l, site{m, m.Body})
+		}
+	}
+	return pick(x.r, l)
+}
+
+// lib adds a helper module (typedef lt, grouping lg, identity li) to the set, imports it into m
+// and returns the import prefix.
+func (x *ictx) lib(m *gen.Module) string {
+	l := &gen.Module{Name: "lib" + x.mk, Prefix: "lq" + x.mk, Namespace: "urn:lib" + x.mk, ImportPrefix: map[*gen.Module]string{}}
+	l.Body = nd("module", l.Name,
+		nd("typedef", "lt", nd("type", "string")),
+		nd("grouping", "lg", nd("leaf", "lgq", nd("type", "string"))),
+		nd("identity", "li"))
+	x.set.Mods = append([]*gen.Module{l}, x.set.Mods...)
+	m.Imports = append(m.Imports, l)
+	p := "lp" + x.mk
+	m.ImportPrefix[l] = p
+	return p
+}
+
+func (x *ictx) add(s *site, n *gen.Node) { s.n.Kids = append(s.n.Kids, n) }
+
+func (x *ictx) expect(fault, key, class string) {
+	x.c.Fault, x.c.Key, x.c.Class = fault, key, class
+	x.c.Marker = key
+}
+
+// typeName returns a type name of the given flavour that does not resolve, and the class of the
+// error: 0 local, 1 own prefix, 2 foreign prefix (imported module lacks the typedef), 3 a prefix
+// that no import declares.
+func (x *ictx) typeName(m *gen.Module, flavour int) (string, string) {
+	switch flavour {
+	case 0:
+		return "ty" + x.mk, "unknown-type"
+	case 1:
+		return m.Prefix + ":ty" + x.mk, "unknown-type"
+	case 2:
+		return x.lib(m) + ":ty" + x.mk, "unknown-type"
+	default:
+		return "px" + x.mk + ":lt", "unknown-prefix"
+	}
+}
+
+var flavourName = []string{"local name", "own prefix", "foreign prefix, no such typedef", "undeclared prefix"}
+
+type fault struct {
+	name string
+	f    func(x *ictx) bool
+}
+
+func typeFaults() []fault {
+	var fs []fault
+	for fl := 0; fl < 4; fl++ {
+		fl := fl
+		fs = append(fs,
+			fault{"unknown type in leaf: " + flavourName[fl], func(x *ictx) bool {
+				s := x.holder()
+				tn, cls := x.typeName(s.m, fl)
+				x.add(s, nd("leaf", "lf"+x.mk, nd("type", tn)))
+				x.expect("unknown type in leaf: "+flavourName[fl], "arg:"+tn, cls)
+				return true
+			}},
+			fault{"unknown type in leaf-list: " + flavourName[fl], func(x *ictx) bool {
+				s := x.holder()
+				tn, cls := x.typeName(s.m, fl)
+				x.add(s, nd("leaf-list", "ll"+x.mk, nd("type", tn)))
+				x.expect("unknown type in leaf-list: "+flavourName[fl], "arg:"+tn, cls)
+				return true
+			}},
+			fault{"unknown type in typedef: " + flavourName[fl], func(x *ictx) bool {
+				s := x.top()
+				tn, cls := x.typeName(s.m, fl)
+				x.add(s, nd("typedef", "td"+x.mk, nd("type", tn)))
+				x.expect("unknown type in typedef: "+flavourName[fl], "arg:"+tn, cls)
+				return true
+			}},
+			fault{"unknown type in union member: " + flavourName[fl], func(x *ictx) bool {
+				s := x.holder()
+				tn, cls := x.typeName(s.m, fl)
+				x.add(s, nd("leaf", "lf"+x.mk, nd("type", "union", nd("type", "string"), nd("type", tn))))
+				x.expect("unknown type in union member: "+flavourName[fl], "arg:"+tn, cls)
+				return true
+			}},
+			fault{"unknown type in typedef used by a leaf: " + flavourName[fl], func(x *ictx) bool {
+				s := x.top()
+				tn, cls := x.typeName(s.m, fl)
+				x.add(s, nd("typedef", "td"+x.mk, nd("type", tn)))
+				x.add(s, nd("leaf", "lf"+x.mk, nd("type", "td"+x.mk)))
+				x.expect("unknown type in typedef used by a leaf: "+flavourName[fl], "arg:"+tn, cls)
+				return true
+			}},
+			fault{"unknown type in deviate replace: " + flavourName[fl], func(x *ictx) bool {
+				s := x.mainTop()
+				tn, cls := x.typeName(s.m, fl)
+				x.add(s, nd("leaf", "dl"+x.mk, nd("type", "string")))
+				x.add(s, nd("deviation", "/"+s.m.Prefix+":dl"+x.mk, nd("deviate", "replace", nd("type", tn))))
+				x.expect("unknown type in deviate replace: "+flavourName[fl], "arg:"+tn, cls)
+				return true
+			}})
+	}
+	return fs
+}
+
+// leafWith adds `leaf lf<mk> { type <t> { subs } }` to a random holder.
+func (x *ictx) leafWith(t string, subs ...*gen.Node) *site {
+	s := x.holder()
+	x.add(s, nd("leaf", "lf"+x.mk, nd("type", t, subs...)))
+	return s
+}
+
+func faults() []fault {
+	fs := []fault{
+		// ---- AST builder (Modules.Parse)
+		{"unknown substatement", func(x *ictx) bool {
+			s := pick(x.r, x.containers)
+			if s == nil {
+				return false
+			}
+			x.add(s, nd("bogus-"+x.mk, "v"))
+			x.expect("unknown substatement", "kw:bogus-"+x.mk, "unknown-field")
+			return true
+		}},
+		{"substatement not allowed here", func(x *ictx) bool {
+			s := pick(x.r, x.leaves)
+			if s == nil {
+				return false
+			}
+			x.add(s, nd("key", "ky"+x.mk))
+			x.expect("substatement not allowed here", "arg:ky"+x.mk, "unknown-field")
+			return true
+		}},
+		{"unknown top-level statement", func(x *ictx) bool {
+			x.post = func(names, texts []string) ([]string, []string) {
+				i := x.r.Intn(len(texts))
+				texts[i] += "bogus-" + x.mk + " v;\n"
+				return names, texts
+			}
+			x.expect("unknown top-level statement", "kw:bogus-"+x.mk, "unknown-field")
+			return true
+		}},
+		{"leaf without type", func(x *ictx) bool {
+			x.add(x.holder(), nd("leaf", "lf"+x.mk, nd("description", "d")))
+			x.expect("leaf without type", "arg:lf"+x.mk, "missing-required")
+			return true
+		}},
+		{"leaf-list without type", func(x *ictx) bool {
+			x.add(x.holder(), nd("leaf-list", "ll"+x.mk, nd("description", "d")))
+			x.expect("leaf-list without type", "arg:ll"+x.mk, "missing-required")
+			return true
+		}},
+		{"typedef without type", func(x *ictx) bool {
+			x.add(x.top(), nd("typedef", "td"+x.mk, nd("description", "d")))
+			x.expect("typedef without type", "arg:td"+x.mk, "missing-required")
+			return true
+		}},
+		{"import without prefix", func(x *ictx) bool {
+			x.add(x.top(), nd("import", "im"+x.mk))
+			x.expect("import without prefix", "arg:im"+x.mk, "missing-required")
+			return true
+		}},
+		{"deviation without deviate", func(x *ictx) bool {
+			s := x.mainTop()
+			x.add(s, nd("deviation", "/"+s.m.Prefix+":dv"+x.mk, nd("description", "d")))
+			x.expect("deviation without deviate", "arg:/"+s.m.Prefix+":dv"+x.mk, "missing-required")
+			return true
+		}},
+		{"belongs-to in a module", func(x *ictx) bool {
+			s := x.mainTop()
+			x.add(s, nd("belongs-to", "bt"+x.mk, nd("prefix", "bp")))
+			x.expect("belongs-to in a module", "parentof:bt"+x.mk, "unknown-field")
+			return true
+		}},
+		{"module name with @", func(x *ictx) bool {
+			l := &gen.Module{Name: "mm" + x.mk + "@1", Prefix: "mp", Namespace: "urn:mm" + x.mk, ImportPrefix: map[*gen.Module]string{}}
+			l.Body = nd("module", l.Name)
+			l.File = "mm" + x.mk + ".yang"
+			x.set.Mods = append(x.set.Mods, l)
+			x.expect("module name with @", "arg:"+l.Name, "bad-module-name")
+			return true
+		}},
+
+		// ---- entry layer
+		{"unknown grouping: local name", func(x *ictx) bool {
+			x.add(x.holder(), nd("uses", "gr"+x.mk))
+			x.expect("unknown grouping: local name", "arg:gr"+x.mk, "unknown-group")
+			return true
+		}},
+		{"unknown grouping: own prefix", func(x *ictx) bool {
+			s := x.holder()
+			x.add(s, nd("uses", s.m.Prefix+":gr"+x.mk))
+			x.expect("unknown grouping: own prefix", "arg:"+s.m.Prefix+":gr"+x.mk, "unknown-group")
+			return true
+		}},
+		{"unknown grouping: foreign prefix, no such grouping", func(x *ictx) bool {
+			s := x.holder()
+			p := x.lib(s.m)
+			x.add(s, nd("uses", p+":gr"+x.mk))
+			x.expect("unknown grouping: foreign prefix, no such grouping", "arg:"+p+":gr"+x.mk, "unknown-group")
+			return true
+		}},
+		{"unknown grouping: undeclared prefix", func(x *ictx) bool {
+			x.add(x.holder(), nd("uses", "px"+x.mk+":lg"))
+			x.expect("unknown grouping: undeclared prefix", "arg:px"+x.mk+":lg", "unknown-group")
+			return true
+		}},
+		{"grouping that uses itself", func(x *ictx) bool {
+			s := x.top()
+			x.add(s, nd("grouping", "gc"+x.mk, nd("uses", s.m.Prefix+":gc"+x.mk)))
+			x.add(s, nd("container", "cc"+x.mk, nd("uses", "gc"+x.mk)))
+			x.expect("grouping that uses itself", "parentof:"+s.m.Prefix+":gc"+x.mk, "cycle")
+			return true
+		}},
+		{"bad config value", func(x *ictx) bool {
+			x.add(x.holder(), nd("container", "cc"+x.mk, nd("config", "maybe")))
+			x.expect("bad config value", "arg:cc"+x.mk, "bad-tristate")
+			return true
+		}},
+		{"bad config value on a leaf", func(x *ictx) bool {
+			x.add(x.holder(), nd("leaf", "lf"+x.mk, nd("type", "string"), nd("config", "maybe")))
+			x.expect("bad config value on a leaf", "arg:lf"+x.mk, "bad-tristate")
+			return true
+		}},
+		{"bad mandatory value", func(x *ictx) bool {
+			x.add(x.holder(), nd("leaf", "lf"+x.mk, nd("type", "string"), nd("mandatory", "perhaps")))
+			x.expect("bad mandatory value", "arg:lf"+x.mk, "bad-tristate")
+			return true
+		}},
+		{"bad max-elements", func(x *ictx) bool {
+			x.add(x.holder(), nd("leaf-list", "ll"+x.mk, nd("type", "string"), nd("max-elements", "mx"+x.mk)))
+			x.expect("bad max-elements", "arg:mx"+x.mk, "bad-max-elements")
+			return true
+		}},
+		{"max-elements 0 on a list", func(x *ictx) bool {
+			x.add(x.holder(), nd("list", "li"+x.mk, nd("key", "k"), nd("leaf", "k", nd("type", "string")), nd("max-elements", "0")))
+			x.expect("max-elements 0 on a list", "sub:li"+x.mk+"/max-elements", "bad-max-elements")
+			return true
+		}},
+		{"bad min-elements", func(x *ictx) bool {
+			x.add(x.holder(), nd("leaf-list", "ll"+x.mk, nd("type", "string"), nd("min-elements", "mn"+x.mk)))
+			x.expect("bad min-elements", "arg:mn"+x.mk, "bad-min-elements")
+			return true
+		}},
+		{"bad ordered-by", func(x *ictx) bool {
+			x.add(x.holder(), nd("leaf-list", "ll"+x.mk, nd("type", "string"), nd("ordered-by", "ob"+x.mk)))
+			x.expect("bad ordered-by", "arg:ob"+x.mk, "bad-ordered-by")
+			return true
+		}},
+		{"duplicate key", func(x *ictx) bool {
+			x.add(x.holder(), nd("container", "cc"+x.mk, nd("leaf", "d", nd("type", "string")), nd("leaf", "d", nd("type", "int8"))))
+			x.expect("duplicate key", "arg:cc"+x.mk, "duplicate-key")
+			return true
+		}},
+		{"duplicate node from a grouping", func(x *ictx) bool {
+			s := x.top()
+			// the second grouping merged into the container brings a name that is taken
+			x.add(s, nd("grouping", "gd"+x.mk, nd("leaf", "d", nd("type", "string"))))
+			x.add(s, nd("grouping", "ge"+x.mk, nd("leaf", "d", nd("type", "int8"))))
+			x.add(s, nd("container", "cc"+x.mk, nd("uses", s.m.Prefix+":gd"+x.mk), nd("uses", s.m.Prefix+":ge"+x.mk)))
+			x.expect("duplicate node from a grouping", "arg:ge"+x.mk, "duplicate-node")
+			return true
+		}},
+		{"augment target not found", func(x *ictx) bool {
+			s := x.mainTop()
+			x.add(s, nd("augment", "/"+s.m.Prefix+":nn"+x.mk, nd("leaf", "al", nd("type", "string"))))
+			x.expect("augment target not found", "arg:/"+s.m.Prefix+":nn"+x.mk, "augment-not-found")
+			return true
+		}},
+		{"augment of a leaf", func(x *ictx) bool {
+			s := x.mainTop()
+			x.add(s, nd("leaf", "tl"+x.mk, nd("type", "string")))
+			x.add(s, nd("augment", "/"+s.m.Prefix+":tl"+x.mk, nd("leaf", "al", nd("type", "string"))))
+			x.expect("augment of a leaf", "arg:/"+s.m.Prefix+":tl"+x.mk, "augment-not-found")
+			return true
+		}},
+
+		// ---- type layer: restrictions
+		{"range outside the parent", func(x *ictx) bool {
+			x.leafWith("int8", nd("range", "1..3000"))
+			x.expect("range outside the parent", "arg:1..3000", "bad-range")
+			return true
+		}},
+		{"range outside a typedef's range", func(x *ictx) bool {
+			s := x.top()
+			x.add(s, nd("typedef", "td"+x.mk, nd("type", "int8", nd("range", "1..10"))))
+			x.add(s, nd("leaf", "lf"+x.mk, nd("type", "td"+x.mk, nd("range", "5..20"))))
+			x.expect("range outside a typedef's range", "sub:td"+x.mk+"/range", "bad-range")
+			return true
+		}},
+		{"length out of order", func(x *ictx) bool {
+			x.leafWith("string", nd("length", "7..3"))
+			x.expect("length out of order", "arg:7..3", "bad-length")
+			return true
+		}},
+		{"negative length", func(x *ictx) bool {
+			x.leafWith("string", nd("length", "-4..3"))
+			x.expect("negative length", "arg:-4..3", "")
+			return true
+		}},
+		{"enum value too large", func(x *ictx) bool {
+			x.leafWith("enumeration", nd("enum", "ok"), nd("enum", "en"+x.mk, nd("value", "99999999999")))
+			x.expect("enum value too large", "arg:en"+x.mk, "enum-too-large")
+			return true
+		}},
+		{"enum value too small", func(x *ictx) bool {
+			x.leafWith("enumeration", nd("enum", "ok"), nd("enum", "en"+x.mk, nd("value", "-99999999999")))
+			x.expect("enum value too small", "arg:en"+x.mk, "enum-too-small")
+			return true
+		}},
+		{"enum name twice", func(x *ictx) bool {
+			x.leafWith("enumeration", nd("enum", "ok"), nd("enum", "ok", nd("description", "ds"+x.mk)))
+			x.expect("enum name twice", "parentof:ds"+x.mk, "enum-dup-name")
+			return true
+		}},
+		{"enum value twice", func(x *ictx) bool {
+			x.leafWith("enumeration", nd("enum", "ok", nd("value", "5")), nd("enum", "en"+x.mk, nd("value", "5")))
+			x.expect("enum value twice", "arg:en"+x.mk, "enum-dup-value")
+			return true
+		}},
+		{"enum after the largest value", func(x *ictx) bool {
+			x.leafWith("enumeration", nd("enum", "ok", nd("value", "2147483647")), nd("enum", "en"+x.mk))
+			x.expect("enum after the largest value", "arg:en"+x.mk, "enum-max-reached")
+			return true
+		}},
+		{"bit position too large", func(x *ictx) bool {
+			x.leafWith("bits", nd("bit", "ok"), nd("bit", "bi"+x.mk, nd("position", "4294967296")))
+			x.expect("bit position too large", "arg:bi"+x.mk, "enum-too-large")
+			return true
+		}},
+		{"bit name twice", func(x *ictx) bool {
+			x.leafWith("bits", nd("bit", "ok"), nd("bit", "ok", nd("description", "ds"+x.mk)))
+			x.expect("bit name twice", "parentof:ds"+x.mk, "enum-dup-name")
+			return true
+		}},
+		{"fraction-digits on a string", func(x *ictx) bool {
+			x.leafWith("string", nd("fraction-digits", "2"))
+			x.expect("fraction-digits on a string", "sub:lf"+x.mk+"/type", "fraction-digits-not-decimal")
+			return true
+		}},
+		{"fraction-digits overridden", func(x *ictx) bool {
+			s := x.top()
+			x.add(s, nd("typedef", "td"+x.mk, nd("type", "decimal64", nd("fraction-digits", "2"))))
+			x.add(s, nd("leaf", "lf"+x.mk, nd("type", "td"+x.mk, nd("fraction-digits", "3"))))
+			x.expect("fraction-digits overridden", "sub:lf"+x.mk+"/type", "fraction-digits-override")
+			return true
+		}},
+		{"decimal64 without fraction-digits", func(x *ictx) bool {
+			x.leafWith("decimal64")
+			x.expect("decimal64 without fraction-digits", "sub:lf"+x.mk+"/type", "")
+			return true
+		}},
+		{"identityref without base", func(x *ictx) bool {
+			x.leafWith("identityref")
+			x.expect("identityref without base", "sub:lf"+x.mk+"/type", "identityref-no-base")
+			return true
+		}},
+		{"bad posix-pattern", func(x *ictx) bool {
+			s := x.holder()
+			l := &gen.Module{Name: "openconfig-extensions", Prefix: "oc-ext", Namespace: "urn:oc-ext", ImportPrefix: map[*gen.Module]string{}}
+			l.Body = nd("module", l.Name, nd("extension", "posix-pattern", nd("argument", "pattern")))
+			x.set.Mods = append([]*gen.Module{l}, x.set.Mods...)
+			s.m.Imports = append(s.m.Imports, l)
+			s.m.ImportPrefix[l] = "oc-ext"
+			x.add(s, nd("leaf", "lf"+x.mk, nd("type", "string", nd("oc-ext:posix-pattern", "(pp"+x.mk))))
+			x.expect("bad posix-pattern", "arg:(pp"+x.mk, "bad-pattern")
+			return true
+		}},
+
+		// ---- identity layer
+		{"identity with an unknown local base", func(x *ictx) bool {
+			s := x.mainTop()
+			x.add(s, nd("identity", "id"+x.mk, nd("base", "nb"+x.mk)))
+			x.expect("identity with an unknown local base", "kw:module", "identity-base-local")
+			x.c.File = s.m.FileName()
+			return true
+		}},
+		{"identity with an unknown remote base", func(x *ictx) bool {
+			s := x.mainTop()
+			p := x.lib(s.m)
+			x.add(s, nd("identity", "id"+x.mk, nd("base", p+":nb"+x.mk)))
+			x.expect("identity with an unknown remote base", "kw:module", "identity-base-remote")
+			x.c.File = s.m.FileName()
+			return true
+		}},
+		{"identity base with an undeclared prefix", func(x *ictx) bool {
+			s := x.mainTop()
+			x.add(s, nd("identity", "id"+x.mk, nd("base", "px"+x.mk+":li")))
+			x.expect("identity base with an undeclared prefix", "kw:module", "identity-prefix")
+			x.c.File = s.m.FileName()
+			return true
+		}},
+		{"identity derived from itself", func(x *ictx) bool {
+			s := x.mainTop()
+			x.add(s, nd("identity", "ia"+x.mk, nd("base", "ib"+x.mk)))
+			x.add(s, nd("identity", "ib"+x.mk, nd("base", "ia"+x.mk)))
+			x.expect("identity derived from itself", "parentof:ib"+x.mk, "cycle")
+			x.c.Also = []string{"parentof:ia" + x.mk}
+			return true
+		}},
+		{"identityref leaf with an unknown base", func(x *ictx) bool {
+			s := x.holder()
+			x.add(s, nd("leaf", "lf"+x.mk, nd("type", "identityref", nd("base", "nb"+x.mk))))
+			x.expect("identityref leaf with an unknown base", "kw:module", "identity-base-local")
+			x.c.File = s.m.FileName()
+			if s.m.Sub {
+				x.c.Key = "kw:submodule"
+			}
+			return true
+		}},
+
+		// ---- deviation stage: the errors stand at the deviating module's statement
+		{"deviate add default where one exists", func(x *ictx) bool {
+			s := x.mainTop()
+			x.add(s, nd("leaf", "dl"+x.mk, nd("type", "string"), nd("default", "a")))
+			x.add(s, nd("deviation", "/"+s.m.Prefix+":dl"+x.mk, nd("deviate", "add", nd("default", "b"))))
+			x.expect("deviate add default where one exists", "kw:module", "deviate-add-default-exists")
+			x.c.File = s.m.FileName()
+			return true
+		}},
+		{"deviate delete default where none exists", func(x *ictx) bool {
+			s := x.mainTop()
+			x.add(s, nd("leaf", "dl"+x.mk, nd("type", "string")))
+			x.add(s, nd("deviation", "/"+s.m.Prefix+":dl"+x.mk, nd("deviate", "delete", nd("default", "b"))))
+			x.expect("deviate delete default where none exists", "kw:module", "deviate-delete-default-missing")
+			x.c.File = s.m.FileName()
+			return true
+		}},
+		{"deviate delete default with another value", func(x *ictx) bool {
+			s := x.mainTop()
+			x.add(s, nd("leaf", "dl"+x.mk, nd("type", "string"), nd("default", "a")))
+			x.add(s, nd("deviation", "/"+s.m.Prefix+":dl"+x.mk, nd("deviate", "delete", nd("default", "b"))))
+			x.expect("deviate delete default with another value", "kw:module", "deviate-delete-default-mismatch")
+			x.c.File = s.m.FileName()
+			return true
+		}},
+		{"deviate delete default of a leaf-list", func(x *ictx) bool {
+			s := x.mainTop()
+			x.add(s, nd("leaf-list", "dl"+x.mk, nd("type", "string"), nd("default", "a")))
+			x.add(s, nd("deviation", "/"+s.m.Prefix+":dl"+x.mk, nd("deviate", "delete", nd("default", "a"))))
+			x.expect("deviate delete default of a leaf-list", "kw:module", "deviate-delete-default-leaflist")
+			x.c.File = s.m.FileName()
+			return true
+		}},
+		{"deviate not-supported of a top-level node twice", func(x *ictx) bool {
+			s := x.mainTop()
+			x.add(s, nd("leaf", "dl"+x.mk, nd("type", "string")))
+			x.add(s, nd("deviation", "/"+s.m.Prefix+":dl"+x.mk, nd("deviate", "not-supported"), nd("deviate", "not-supported")))
+			x.expect("deviate not-supported of a top-level node twice", "kw:module", "deviate-already-removed")
+			x.c.File = s.m.FileName()
+			return true
+		}},
+		{"unknown deviate kind", func(x *ictx) bool {
+			s := x.mainTop()
+			x.add(s, nd("leaf", "dl"+x.mk, nd("type", "string")))
+			x.add(s, nd("deviation", "/"+s.m.Prefix+":dl"+x.mk, nd("deviate", "dk"+x.mk)))
+			x.expect("unknown deviate kind", "parentof:dk"+x.mk, "deviate-unknown-kind")
+			return true
+		}},
+	}
+	return append(fs, typeFaults()...)
+}
+
+// inject plants fault number kind into the set; returns nil when the set offers no site.
+func inject(r interface{ Intn(int) int }, set *gen.Set, fl fault, seq int) *tcase {
+	x := &ictx{r: r, set: set, mk: fmt.Sprintf("zz%dq", seq), c: &tcase{}}
+	x.collect()
+	if !fl.f(x) {
+		return nil
+	}
+	x.c.Names, x.c.Texts = set.Files()
+	if x.post != nil {
+		x.c.Names, x.c.Texts = x.post(x.c.Names, x.c.Texts)
+	}
+	return x.c
+}
+
+func eRecords(dump []string) []string {
+	var out []string
+	for _, r := range dump {
+		if strings.HasPrefix(r, "E ") {
+			out = append(out, r)
+		}
+	}
+	sort.Strings(out)
+	return out
+}
+
+// judge applies the marker oracle; "" when the case passes.
+func judge(c tcase, v verdict) string {
+	switch {
+	case v.Stray != "":
+		return "an error names a position that is not the start of a statement of that file: " + v.Stray
+	case c.Fault == "":
+		return ""
+	case len(v.Expected) == 0:
+		return ""
+	case v.NoError:
+		return fmt.Sprintf("single fault (%s) at %v is not reported at all", c.Fault, v.Expected)
+	case !v.Named:
+		return fmt.Sprintf("single fault (%s): no %s error stands at %v (the statement the error is about): %q", c.Fault, c.Class, v.Expected, v.Errors)
+	case v.Elsewhere != "":
+		return fmt.Sprintf("single fault (%s) at %v: an error stands at another statement: %s", c.Fault, v.Expected, v.Elsewhere)
+	}
+	return ""
 }
 
 func main() {
 	f := lib.ParseFlags()
+	// the model comparison needs the resolver driver (a replay through ./check hands over the
+	// property's first driver, which is the lexer's)
+	if !strings.HasPrefix(filepath.Base(f.Driver), "drv_res") {
+		f.Driver = ""
+	}
 	if f.Replay != "" {
 		raw, _ := os.ReadFile(f.Replay)
 		var p struct {
@@ -258,33 +823,60 @@ func main() {
 		for i := range c.Names {
 			fmt.Printf("--- %s\n%s", c.Names[i], c.Texts[i])
 		}
-		fmt.Printf("fault: %s marker %s\nexpected position: %s\nerrors: %q\nnamed: %v stray: %q crash: %q\n", c.Fault, c.Marker, v.Expected, v.Errors, v.Named, v.Stray, crash)
-		if crash != "" || v.Stray != "" || (c.Fault != "" && !v.Named) {
+		why := judge(c, v)
+		fmt.Printf("fault: %s key %s class %s\nexpected position: %v\nerrors: %q\nerror positions: %v\nverdict: %q crash: %q\n",
+			c.Fault, c.key(), c.Class, v.Expected, v.Errors, v.At, why, crash)
+		bad := crash != "" || why != ""
+		if f.Driver != "" && !v.ParseFail && crash == "" {
+			if req := rescorr.Request(rescorr.Case{Names: c.Names, Texts: c.Texts}); req != "" {
+				ans, err := lib.ParBatch(f.Driver, []string{req}, 1)
+				if err == nil {
+					g, m := eRecords(lib.CanonErrs(v.errs)), eRecords(strings.Split(ans[0], " ; "))
+					fmt.Printf("go    E-records: %v\nmodel E-records: %v\n", g, m)
+					if !strings.HasPrefix(ans[0], "outsideModel") && strings.Join(g, "\n") != strings.Join(m, "\n") {
+						bad = true
+					}
+				}
+			}
+		}
+		if bad {
 			os.Exit(1)
 		}
 		return
 	}
 	res := lib.NewResult("C16", f)
-	n := 4000
+	n := 6000
 	if f.Thorough() {
 		n = 200000
 	}
 	cfg := gen.Default()
 	cfg.BadRate = 0 // the only fault is the injected one
 	cfg.BadRefs = false
+	// (two revisions of one module share statements: one fault would stand in two files, and the
+	// deviations of the older revision are not applied)
+	cfg.Revisions = false
+	fs := faults()
 	distinct := lib.NewDistinct()
 	perKind := map[string]int64{}
+	classes := map[string]int64{}
 	var unfaulted, unfaultedErr int64
+	type pending struct {
+		c tcase
+		v verdict
+	}
+	var pend []pending
+	var reqs []string
+	period := len(fs) + 1
 	for i := 0; i < n; i++ {
 		r := f.Rand(i)
 		set := gen.Generate(r, cfg)
-		kind := i % 10
+		kind := i % period
 		var c *tcase
-		if kind < 9 {
+		if kind < len(fs) {
 			// a single fault needs a base that is clean without it
 			bn, bt := set.Files()
 			if bv, bc := run(tcase{Names: bn, Texts: bt}); bc == "" && bv.NoError {
-				c = inject(r, set, kind, i)
+				c = inject(r, set, fs[kind], i)
 			} else {
 				res.Count("base_not_clean", 1)
 				set = gen.Generate(f.Rand(i), cfg)
@@ -301,9 +893,14 @@ func main() {
 			res.AddDisagreement(lib.Disagreement{Kind: "crash", Input: c, Go: crash, SpecVerdict: "violates", What: "goyang panicked: " + crash, Replay: c})
 			continue
 		}
-		if v.Stray != "" {
-			res.AddDisagreement(lib.Disagreement{Kind: "spec", Input: c, Go: v.Errors, SpecVerdict: "violates",
-				What: "an error names a position that is not the start of a statement of that file: " + v.Stray, Replay: c})
+		if why := judge(*c, v); why != "" {
+			res.AddDisagreement(lib.Disagreement{Kind: "spec", Input: c, Go: v.Errors, SpecVerdict: "violates", What: why, Replay: c})
+		}
+		if f.Driver != "" && !v.ParseFail {
+			if req := rescorr.Request(rescorr.Case{Names: c.Names, Texts: c.Texts}); req != "" {
+				pend = append(pend, pending{*c, v})
+				reqs = append(reqs, req)
+			}
 		}
 		if c.Fault == "" {
 			if !v.NoError {
@@ -312,27 +909,66 @@ func main() {
 			continue
 		}
 		perKind[c.Fault]++
-		if v.Expected == "" {
+		for _, p := range v.At {
+			classes[p.Class]++
+		}
+		if len(v.Expected) == 0 {
 			res.Count("marker_not_found", 1)
 			continue
 		}
-		if !v.Named {
-			what := fmt.Sprintf("single fault (%s) at %s is not named by any error: %q", c.Fault, v.Expected, v.Errors)
-			if v.NoError {
-				what = fmt.Sprintf("single fault (%s) at %s is not reported at all", c.Fault, v.Expected)
-			}
-			res.AddDisagreement(lib.Disagreement{Kind: "spec", Input: c, Go: v.Errors, SpecVerdict: "violates", What: what, Replay: c})
-		}
 		if distinct.Add(strings.Join(c.Texts, "\x00")) && i%(n/8+1) == 0 {
-			res.AddSample(map[string]any{"fault": c.Fault, "marker": c.Marker, "expected": v.Expected, "errors": v.Errors})
+			res.AddSample(map[string]any{"fault": c.Fault, "key": c.key(), "class": c.Class, "expected": v.Expected, "errors": v.Errors})
 		}
+	}
+	// the same sets through the resolver model: error records (file:line:col:class) must agree
+	if f.Driver != "" {
+		ans, err := lib.ParBatch(f.Driver, reqs, f.Procs)
+		if err != nil {
+			lib.Fatal("driver: %v", err)
+		}
+		var compared, outside, withErrs, positioned int64
+		for k, p := range pend {
+			a := ans[k]
+			if strings.HasPrefix(a, "outsideModel") {
+				outside++
+				continue
+			}
+			compared++
+			g, m := eRecords(lib.CanonErrs(p.v.errs)), eRecords(strings.Split(a, " ; "))
+			if len(g) > 0 {
+				withErrs++
+			}
+			for _, e := range g {
+				if !strings.HasPrefix(e, "E -:0:0:") {
+					positioned++
+				}
+			}
+			if strings.Join(g, "\n") == strings.Join(m, "\n") {
+				continue
+			}
+			sv := "holds"
+			if judge(p.c, p.v) != "" {
+				sv = "violates"
+			}
+			c := p.c
+			res.AddDisagreement(lib.Disagreement{Kind: "correspondence", Input: c, Go: g, Model: m, SpecVerdict: sv,
+				What: fmt.Sprintf("error records of Go and of the resolver model differ (fault: %s)", c.Fault), Replay: c})
+		}
+		res.Distribution["model_compared"] = compared
+		res.Distribution["model_outside"] = outside
+		res.Distribution["model_compared_sets_with_errors"] = withErrs
+		res.Distribution["model_compared_positioned_error_records"] = positioned
 	}
 	res.Evaluations = int64(n)
 	res.DistinctNontrivial = distinct.Len()
-	res.Rule = "valid generated module sets (harness/gen, fault rate 0) with exactly one injected semantic fault of the nine kinds of the property (unknown substatement, substatement not allowed in its context, leaf without type, unknown type, unknown grouping, range outside the parent, length out of order, enum value out of range, import without prefix); the faulty statement carries a unique marker and its true position comes from the generic parser; distinct_nontrivial = distinct faulted sets"
+	res.Rule = fmt.Sprintf("valid generated module sets (harness/gen, fault rate 0) with exactly one injected semantic fault of %d kinds (one or more per positioned error class: AST builder, entry layer, type layer incl. unknown type / prefix with local, own-prefixed, foreign-prefixed and undeclared-prefixed names in leaf, leaf-list, typedef, union member, typedef used by a leaf and deviate type, identity layer, deviation stage); the faulty statement is addressed by a unique marker, its true position comes from the generic parser, an error of the expected class must stand exactly there and none elsewhere; distinct_nontrivial = distinct faulted sets", len(fs))
 	for k, v := range perKind {
 		res.Distribution["fault:"+k] = v
 	}
+	for k, v := range classes {
+		res.Distribution["class:"+k] = v
+	}
+	res.Distribution["fault_kinds"] = int64(len(fs))
 	res.Distribution["unfaulted_sets"] = unfaulted
 	res.Distribution["unfaulted_sets_with_errors"] = unfaultedErr
 	res.Write(f.Out)
